@@ -25,6 +25,7 @@ def main():
             continue
         driver.core.CVC5_FIRST = bool(getattr(t, "cvc5_first", False))
         driver.core.ABSTRACT_STRINGS_FIRST = bool(getattr(t, "abstract_strings", False))
+        driver.core.Z3_OUT_OF_PROCESS = bool(getattr(t, "z3_out_of_process", False))
         res = run_task(t.name, t.harness, t.cfg_factory or Config, repo=Repo(driver.REPO), timeout_ms=t.timeout_ms,
                        max_paths=t.max_paths, prune=t.prune, known_classes=driver.known_classes_for(known, t.name))
         st = res.summary()
